@@ -242,4 +242,32 @@ def run(res, tier, seed=13):
                     except Exception:
                         pass
                     n_req += 1
+    # type NAMES where classes are expected (any spelling), and a MetaModule file whose embedded project is larger than the
+    # module-position controllers were specified for, with stored positions beyond their range
+    for spelling in ("Lfo", "lfo", "LFO", "analog_generator", "Analog generator", "MetaModule", "metamodule", "Sampler ", "Output", "Amplifier"):
+        try:
+            api.Project().new_module(spelling)
+        except Exception:
+            pass
+        try:
+            api.Project().new_module(spelling, name="x")
+        except Exception:
+            pass
+        n_req += 1
+    try:
+        inner = api.Project()
+        for _ in range(300):
+            inner.new_module(api.m.Amplifier)
+        big = api.m.MetaModule(project=inner)
+        chunks = [(c[0], c[1]) for c in iffparse.parse(api.Synth(big).read())]
+        ctl_names = [n_ for n_, c in type(big).controllers.items() if c.attached(big)]
+        cv = [k for k, c in enumerate(chunks) if c[0] == b"CVAL"]
+        for nm, v in (("input_module", 290),):
+            if nm in ctl_names:
+                chunks[cv[ctl_names.index(nm)]] = (b"CVAL", struct.pack("<i", v))
+        o = api.read_sunvox_file(BytesIO(iffparse.build(chunks)))
+        o.module.clone()
+        n_req += 1
+    except Exception:
+        pass
     res.count("hostile_helper_requests", n_req)
